@@ -19,6 +19,7 @@ type Clause struct {
 	Kind  string // requires ensures invariant rangeinv decreases loopdec assert
 	Label string
 	Loop  int    // loop ordinal for invariant/rangeinv/loopdec
+	LoopAnchor string // or: text contained in the loop's header
 	Before string // anchor text for assert
 	Expr  string
 	Line  string // file:line of the directive
@@ -52,7 +53,7 @@ func (c *Contract) clauses(kind string) []*Clause {
 }
 
 var reFuncDirective = regexp.MustCompile(`^func\s+(.+)$`)
-var reLoop = regexp.MustCompile(`^loop\s+(\d+)\s*:\s*(invariant|rangeinv|decreases|with)\s*(?:\[([A-Za-z0-9_\-]+)\])?\s+(.*)$`)
+var reLoop = regexp.MustCompile(`^loop\s+(\d+|"(?:[^"\\]|\\.)*")\s*:\s*(invariant|rangeinv|decreases|with)\s*(?:\[([A-Za-z0-9_\-]+)\])?\s+(.*)$`)
 var reAssert = regexp.MustCompile(`^(assert|lemma|ghost)\s+([A-Za-z0-9_\-]+)\s+before\s+"((?:[^"\\]|\\.)*)"\s*:\s*(.*)$`)
 var reClause = regexp.MustCompile(`^(requires|ensures|decreases|fmtwhen|assumes)\s*(?:\[([A-Za-z0-9_\-]+)\])?\s+(.*)$`)
 
@@ -102,12 +103,19 @@ func parseContractFile(path string) ([]*Contract, error) {
 		}
 		if m := reLoop.FindStringSubmatch(body); m != nil {
 			k := 0
-			fmt.Sscanf(m[1], "%d", &k)
+			anchor := ""
+			if strings.HasPrefix(m[1], `"`) {
+				// loop "text": the first loop whose header contains the text (robust against added loops)
+				anchor = strings.Trim(m[1], `"`)
+				k = -1
+			} else {
+				fmt.Sscanf(m[1], "%d", &k)
+			}
 			kind := m[2]
 			if kind == "decreases" {
 				kind = "loopdec"
 			}
-			last = &Clause{Kind: kind, Loop: k, Label: m[3], Expr: m[4], Line: loc}
+			last = &Clause{Kind: kind, Loop: k, LoopAnchor: anchor, Label: m[3], Expr: m[4], Line: loc}
 			cur.Clauses = append(cur.Clauses, last)
 			continue
 		}
@@ -659,6 +667,23 @@ func (w *weaver) weave(c *Contract) {
 		return strings.Join(ps, ", ")
 	}
 	loops := loopsOf(sf, fd)
+	// resolve loop anchors to ordinals
+	for _, cl := range c.Clauses {
+		if cl.LoopAnchor == "" {
+			continue
+		}
+		cl.Loop = -1
+		for k, off := range loops {
+			if strings.Contains(loopHeaderAt(sf, fd, off), cl.LoopAnchor) {
+				cl.Loop = k
+				break
+			}
+		}
+		if cl.Loop < 0 {
+			w.fail("%s: no loop of %s has %q in its header", cl.Line, c.FuncName, cl.LoopAnchor)
+			cl.Loop = len(loops) + 1000
+		}
+	}
 	n := 0
 	loopParams := map[int]string{}
 	for _, cl := range c.Clauses {
@@ -923,4 +948,31 @@ func headerText(sf *srcFile, st ast.Stmt) string {
 		}
 	}
 	return t
+}
+
+// loopHeaderAt: the header text of the loop statement that starts at the given offset.
+func loopHeaderAt(sf *srcFile, fd *ast.FuncDecl, off int) string {
+	out := ""
+	ast.Inspect(fd.Body, func(m ast.Node) bool {
+		if out != "" || m == nil {
+			return false
+		}
+		st, ok := m.(ast.Stmt)
+		if !ok || sf.fset.Position(st.Pos()).Offset != off {
+			return true
+		}
+		if ls, isL := st.(*ast.LabeledStmt); isL {
+			st = ls.Stmt
+		}
+		switch st.(type) {
+		case *ast.ForStmt, *ast.RangeStmt:
+			out = headerText(sf, st)
+			if out == "" {
+				out = " "
+			}
+			return false
+		}
+		return true
+	})
+	return out
 }
